@@ -267,9 +267,9 @@ def gen_system(rng):
     return rows, shape
 
 
-def gen_exhaustive(nv, max_rows, K):
-    """Every multiset of <= max_rows rows over nv variables with all entries in -K..K."""
-    rows = [list(r) for r in itertools.product(range(-K, K + 1), repeat=nv + 1)]
+def gen_exhaustive(nv, max_rows, K, cK):
+    """Every multiset of <= max_rows rows over nv variables, coefficients in -K..K, constants in -cK..cK."""
+    rows = [list(r) for r in itertools.product(*([range(-K, K + 1)] * nv + [range(-cK, cK + 1)]))]
     for k in range(1, max_rows + 1):
         for combo in itertools.combinations_with_replacement(rows, k):
             yield [list(r) for r in combo]
@@ -280,13 +280,28 @@ def eval_row(r, val):
     return sum(c * val[i] for i, c in enumerate(r[:-1])) + r[-1]
 
 
+_grids = {}
+
+
 def brute_point(rows, box=BOX):
-    """An integer point of the box satisfying every row, or None."""
+    """An integer point of the box [-box, box]^n satisfying every row, or None (numpy int64: exact here)."""
+    import numpy as np
     nv = len(rows[0]) - 1
-    for pt in itertools.product(range(-box, box + 1), repeat=nv):
-        if all(eval_row(r, pt) >= 0 for r in rows):
-            return pt
-    return None
+    if nv == 0:
+        return () if all(r[-1] >= 0 for r in rows) else None
+    g = _grids.get((nv, box))
+    if g is None:
+        axes = np.meshgrid(*[np.arange(-box, box + 1, dtype=np.int64)] * nv, indexing="ij")
+        g = np.stack([a.ravel() for a in axes], axis=1)
+        _grids[(nv, box)] = g
+    ok = np.ones(len(g), dtype=bool)
+    for r in rows:
+        ok &= (g @ np.array(r[:-1], dtype=np.int64) + r[-1]) >= 0
+        if not ok.any():
+            return None
+    pt = tuple(int(x) for x in g[int(np.argmax(ok))])
+    assert all(eval_row(r, pt) >= 0 for r in rows)
+    return pt
 
 
 _z3 = None
@@ -492,7 +507,7 @@ def check_omega(ctx, omega, systems, label, use_z3=True, limit=20):
                 pass
             ctx.count("oracle:witness-checked")
         elif res[0] == "contr":
-            pt = brute_point(rows) if nv <= 4 else brute_point(rows, 3)
+            pt = brute_point(rows)
             z = z3_sat(rows) if (use_z3 and pt is None) else None
             dv = None
             if cert_line is not None:
@@ -510,7 +525,7 @@ def check_omega(ctx, omega, systems, label, use_z3=True, limit=20):
             if z is not None:
                 ctx.count("oracle:z3-lia")
         elif res[0] == "noconcl":
-            ctx.count("omega:noconcl-truth:%s" % ("sat" if brute_point(rows, 4 if nv >= 4 else BOX) is not None else "no-point-in-box"))
+            ctx.count("omega:noconcl-truth:%s" % ("sat" if brute_point(rows) is not None else "no-point-in-box"))
         # ---------------- correspondence with the model
         if model_line is not None:
             m, flag = parse_omega_model(model_line)
@@ -765,7 +780,7 @@ def check_bb(ctx, simplex, systems, label):
                        "not integral" if nonint else "row %s violated" % (viol or ["-"])[0]), rp)
             ctx.count("oracle:bb-witness-checked")
         elif res[0] == "unsat":
-            pt = brute_point(rows) if nv <= 4 else brute_point(rows, 3)
+            pt = brute_point(rows)
             z = z3_sat(rows) if pt is None else True
             ctx.count("oracle:z3-lia")
             if z is True:
@@ -911,7 +926,7 @@ def check_omega_hol(ctx, systems, label):
             if extra or literal:
                 report(ctx, "omegahol:foreign-hypothesis", key, "proof of OmegaHOL.solve() for %s uses hypotheses that are not among the given constraints: %s" % (rows, extra or literal), rp)
             # the verdict itself
-            pt = brute_point(rows) if nv <= 4 else brute_point(rows, 3)
+            pt = brute_point(rows)
             if pt is not None:
                 report(ctx, "omegahol:wrong-contradiction", key, "OmegaHOL.solve() proves false from %s but %s satisfies every constraint" % (rows, list(pt)), rp)
         elif isinstance(res, dict):
@@ -933,7 +948,7 @@ def run(ctx):
         "integer systems, rows c1..cn,c0 meaning sum ci*xi + c0 >= 0: random with 1-5 variables, 1-8 rows, entries in -4..4 in "
         "14 shapes (plain/sparse/dense, equalities as paired inequalities, parity pairs, no-unit-coefficient 'dark' systems, one-sided "
         "(unbounded) systems, constant rows, duplicate/parallel rows, boxed, unit coefficients on variable 0, non-unit single-variable rows); "
-        "thorough: every multiset of <=3 rows over 2 variables with entries in -2..2. Non-trivial = at least two rows with a variable; "
+        "thorough: every multiset of <=3 rows over 2 variables with coefficients in -2..2 and constants in -1..1. Non-trivial = at least two rows with a variable; "
         "distinct by the row lists.")
     try:
         gen = translate_combine(ctx.repo)
@@ -948,7 +963,7 @@ def run(ctx):
     corpus = load_corpus(ctx)
     check_omega(ctx, omega, [(r, "corpus") for r in corpus], "corpus")
     rng = ctx.rng("omega")
-    systems = [gen_system(rng) for _ in range(ctx.scale(4000, 60000))]
+    systems = [gen_system(rng) for _ in range(ctx.scale(4000, 30000))]
     for s in systems[:3]:
         ctx.sample({"rows": s[0], "shape": s[1]})
     have_model = True
@@ -956,9 +971,10 @@ def run(ctx):
         have_model = check_omega(ctx, omega, systems[i:i + 10000], "random") and have_model
     if not have_model:
         ctx.broken("correspondence:c16:driver", "model driver unavailable")
+    ctx.log("omega random stream done (%d systems)" % len(systems))
     if ctx.tier == "thorough":
         batch = []
-        for rows in gen_exhaustive(2, 3, 2):
+        for rows in gen_exhaustive(2, 3, 2, 1):
             batch.append((rows, "exhaustive"))
             if len(batch) >= 20000:
                 check_omega(ctx, omega, batch, "exhaustive", use_z3=False)
@@ -966,22 +982,27 @@ def run(ctx):
         if batch:
             check_omega(ctx, omega, batch, "exhaustive", use_z3=False)
         ctx.coverage["exhaustive"] = False
-        ctx.coverage["exhaustive_subspace"] = "solve_matrix on every multiset of <=3 rows over 2 variables with entries in -2..2"
+        ctx.log("omega exhaustive stream done")
+        ctx.coverage["exhaustive_subspace"] = "solve_matrix on every multiset of <=3 rows over 2 variables with coefficients in -2..2 and constants in -1..1 (75 rows, 76075 systems)"
     # 4. simplex / branch and bound / strict simplex
     from prover import simplex, simplex_strict
     rng = ctx.rng("simplex")
-    sys2 = [gen_system(rng) for _ in range(ctx.scale(1500, 20000))]
+    sys2 = [gen_system(rng) for _ in range(ctx.scale(1500, 10000))]
     check_simplex(ctx, simplex, sys2, "random")
+    ctx.log("simplex stream done (%d)" % len(sys2))
     rng = ctx.rng("bb")
-    sys3 = [gen_system(rng) for _ in range(ctx.scale(600, 8000))]
+    sys3 = [gen_system(rng) for _ in range(ctx.scale(600, 4000))]
     check_bb(ctx, simplex, sys3, "random")
+    ctx.log("branch-and-bound stream done (%d)" % len(sys3))
     rng = ctx.rng("strict")
-    sys4 = [gen_system(rng) for _ in range(ctx.scale(800, 10000))]
+    sys4 = [gen_system(rng) for _ in range(ctx.scale(800, 5000))]
     check_strict(ctx, simplex_strict, sys4, "random")
+    ctx.log("strict simplex stream done (%d)" % len(sys4))
     # 5. proof terms
     rng = ctx.rng("omegahol")
-    sys5 = [gen_system(rng) for _ in range(ctx.scale(60, 900))]
+    sys5 = [gen_system(rng) for _ in range(ctx.scale(60, 400))]
     check_omega_hol(ctx, sys5, "random")
+    ctx.log("OmegaHOL stream done (%d)" % len(sys5))
 
 
 def load_corpus(ctx):
